@@ -40,7 +40,7 @@ def build(workload):
         why = graphgen.check_closed(desc)
         if why is not None and not workload.get("allow_open"):
             raise Skip("not-closed:" + why)
-        return graphgen.build_scfg(desc), [[a, k, list(t)] for a, k, t in desc]
+        return graphgen.build_scfg(desc, workload.get("prior_graphs", 0)), [[a, k, list(t)] for a, k, t in desc]
     if kind == "src":
         from numba_scfg.core.datastructures.ast_transforms import AST2SCFG
         try:
